@@ -150,9 +150,9 @@ def c03_1(ctx):
             raise AnalysisError("%s.f not found" % maker)
         txt = norm(inner.node)
         ok = "v1, v2 = [pop_check_bounds(vm) for i in range(2)]" in txt and "binop(v2, v1)" in txt
-        ctx.check(ok, "operand-order:%s" % maker, ctx.where(inner), "%s: operands are not passed as binop(deeper, top)" % maker)
+        tcheck(ctx, ok, "operand-order:%s" % maker, ctx.where(inner), "%s: operands are not passed as binop(deeper, top)" % maker)
     un = ctx.p.functions.get(ctx.func(INTOPS, "make_unary_num_op").qualname + ".f")
-    ctx.check(un is not None and "vm.push_int(unary_f(pop_check_bounds(vm)))" in norm(un.node), "unary-shape", ctx.where(un) if un else INTOPS + ":1", "make_unary_num_op does not push unary_f(bounded operand)")
+    tcheck(ctx, un is not None and "vm.push_int(unary_f(pop_check_bounds(vm)))" in norm(un.node), "unary-shape", ctx.where(un) if un else INTOPS + ":1", "make_unary_num_op does not push unary_f(bounded operand)")
     # duplicate opcode values keep the consensus binding (177 -> CLTV, 178 -> CSV)
     for v, nm in ((177, "do_OP_CHECKLOCKTIMEVERIFY"), (178, "do_OP_CHECKSEQUENCEVERIFY")):
         ctx.check(isinstance(lk[v], FuncVal) and lk[v].name == nm, "dup-opcode-%d" % v, MISCOPS + ":1", "opcode %d is bound to %s, consensus: %s" % (v, getattr(lk[v], "name", lk[v]), nm))
@@ -222,13 +222,23 @@ def c03_2(ctx):
                     continue
                 seen.add(id(leaf))
                 n += 1
+                if isinstance(leaf, ast.Call) and isinstance(leaf.func, ast.Name) and leaf.func.id in ("any", "all") and len(leaf.args) == 1:
+                    a0 = leaf.args[0]
+                    scanned = a0.generators[0].iter if isinstance(a0, ast.GeneratorExp) and len(a0.generators) == 1 else a0
+                    if _is_stack_item(scanned, stack_locals):
+                        # byte-wise truth of an item: decided here whatever the rest of the handler looks like (negative zero, 0x80
+                        # after zero bytes, has a non-zero byte and is false)
+                        from sa.core import Ctx as _Ctx
+                        _Ctx.bad(ctx, "bytewise-truthiness:%s" % fi.name, ctx.where(fi, leaf), "%s decides the truth of stack item `%s` with %s() over its bytes; script truthiness (CastToBool) is false for negative zero (0x80, 0x0080, ...)"
+                                 % (fi.name, norm(scanned), leaf.func.id), sample={"handler": fi.qualname, "condition": norm(leaf)})
+                        continue
                 ctx.check(not _is_stack_item(leaf, stack_locals), "python-truthiness:%s:%s" % (fi.name, norm(leaf)), ctx.where(fi, leaf),
                           "%s uses the Python truth value of stack item `%s`; script truthiness (CastToBool: any non-zero byte, except negative zero) differs for 0x00 / 0x80"
                           % (fi.name, norm(leaf)), what="%s:%s" % (fi.name, norm(leaf)), sample={"handler": fi.qualname, "condition": norm(leaf)} if n < 4 else None)
     ctx.note("handlers scanned: %d" % len(hs))
     # the one sanctioned conversion
     f = ctx.func(BVM, "BitcoinVM.bool_from_script_bytes")
-    ctx.check("int_from_script_bytes" in norm(f.node) and "return bool(int_v)" in norm(f.node), "cast-to-bool", ctx.where(f), "bool_from_script_bytes is not bool(int value of the item)")
+    tcheck(ctx, "int_from_script_bytes" in norm(f.node) and "return bool(int_v)" in norm(f.node), "cast-to-bool", ctx.where(f), "bool_from_script_bytes is not bool(int value of the item)")
 
 
 def _leaves(t):
@@ -297,7 +307,7 @@ def c03_3(ctx):
         ctx.check(ok, "bound-is-5-bytes:%s" % name, ctx.where(f), "%s reads its operand for lengths %s; BIP65/112 allow up to 5 bytes" % (name, [l_.fmt() for l_ in lens]))
     # minimal-encoding flag reaches the decoder
     f = ctx.func(BVM, "BitcoinVM.pop_int")
-    ctx.check("require_minimal=bool(self.flags & VERIFY_MINIMALDATA)" in norm(f.node) and "int_from_script_bytes(self.pop()" in norm(f.node), "minimaldata-plumbing", ctx.where(f),
+    tcheck(ctx, "require_minimal=bool(self.flags & VERIFY_MINIMALDATA)" in norm(f.node) and "int_from_script_bytes(self.pop()" in norm(f.node), "minimaldata-plumbing", ctx.where(f),
               "BitcoinVM.pop_int does not decode the popped item with require_minimal = MINIMALDATA flag")
     ctx.note("numeric read sites: %d" % sites)
 
@@ -364,14 +374,14 @@ def c03_5(ctx):
             s = s | gi.sat_set(e.cond, U, E)
     ctx.check(s == iv(0, ("s", 0)).complement(), "multisig-sig-count", ctx.where(f), "do_OP_CHECKMULTISIG rejects signature counts %s, consensus: outside [0, key_count]" % s.fmt("key_count"))
     txt = norm(f.node)
-    ctx.check("vm.op_count += key_count" in txt, "multisig-op-count", ctx.where(f), "do_OP_CHECKMULTISIG does not add the key count to the op count")
+    tcheck(ctx, "vm.op_count += key_count" in txt, "multisig-op-count", ctx.where(f), "do_OP_CHECKMULTISIG does not add the key count to the op count")
     # stack size is checked per instruction and after the script; op count after the handler
     ei = ctx.func(VM, "VM.eval_instruction")
-    ctx.check("self.check_stack_size()" in norm(ei.node), "stack-size-per-instruction", ctx.where(ei), "eval_instruction does not check the stack size")
+    tcheck(ctx, "self.check_stack_size()" in norm(ei.node), "stack-size-per-instruction", ctx.where(ei), "eval_instruction does not check the stack size")
     ps = ctx.func(VM, "VM.post_script_check")
-    ctx.check("self.check_stack_size()" in norm(ps.node) and "self.conditional_stack.check_final_state()" in norm(ps.node), "post-script-checks", ctx.where(ps), "post_script_check misses the stack-size or conditional-balance check")
+    tcheck(ctx, "self.check_stack_size()" in norm(ps.node) and "self.conditional_stack.check_final_state()" in norm(ps.node), "post-script-checks", ctx.where(ps), "post_script_check misses the stack-size or conditional-balance check")
     es = ctx.func(VM, "VM.eval_script")
-    ctx.check("self.post_script_check()" in norm(es.node) and "while self.pc < len(self.script):" in norm(es.node), "eval-loop", ctx.where(es), "eval_script does not loop to the end of the script and run the post-script checks")
+    tcheck(ctx, "self.post_script_check()" in norm(es.node) and "while self.pc < len(self.script):" in norm(es.node), "eval-loop", ctx.where(es), "eval_script does not loop to the end of the script and run the post-script checks")
     # opcode counting: every non-push opcode counts, executed or not
     incs = [e for e in w0.effects if e.kind == "setattr" and norm(e.target) == "self" and e.attr == "op_count"]
     none_atom = ("op", "%s is None" % data_t)
@@ -428,9 +438,29 @@ def c03_5(ctx):
               "is_pay_to_script_hash constrains %s; BIP16 pattern is len == 23, [0] == HASH160 (0xa9), [1] == 0x14, [22] == EQUAL (0x87)" % cons, sample={"constraints": cons})
     # hash type definedness
     f = ctx.func(CHECKSIG, "check_defined_hashtype_signature")
-    txt = norm(f.node)
-    ctx.check("hash_type = sig[-1] & ~SIGHASH_ANYONECANPAY" in txt and "hash_type < SIGHASH_ALL or hash_type > SIGHASH_SINGLE" in txt, "defined-hashtype", ctx.where(f),
-              "check_defined_hashtype_signature does not accept exactly base types 1..3 after masking ANYONECANPAY")
+    # decision table over the 256 values of the last byte: the guards of the function evaluated on a two-byte blob ending in
+    # that byte (abstract interpreter, finite domain): refused exactly outside {1, 2, 3} | {0x81, 0x82, 0x83}
+    from sa.interp import Frame, Unknown
+    it_ = ctx.interp
+    mv = it_.module(f.module.name)
+    sp = f.params()[0]
+
+    def evalf(expr, v):
+        val = it_.eval(expr, Frame(mv, None, {sp: bytes([0x30, v])}))
+        if isinstance(val, Unknown):
+            raise ValueError("unknown")
+        return bool(val)
+    leaf = sym.finite_leaf(range(256), evalf)
+    wh = sym.walk(ctx, f, leaf, feasible=lambda r: True)
+    fr = sym.exits_formula(wh, lambda e: e.kind == "raise")
+    ops = [o for o in (gi.f_opaques(fr) if fr not in (True, False) else []) if isinstance(o, str)]
+    if ops:
+        raise Undecided("check_defined_hashtype_signature decides on %s, which the last byte of the blob does not determine" % ops[:2])
+    rej = sym.may_set(fr, leaf.univ, leaf.empty) if fr is not False else leaf.empty
+    acc = sorted(set(range(256)) - set(rej.m))
+    ctx.check(acc == [1, 2, 3, 0x81, 0x82, 0x83], "defined-hashtype", ctx.where(f),
+              "check_defined_hashtype_signature accepts the hash-type bytes %s; STRICTENC defines exactly 1, 2, 3 with or without ANYONECANPAY (0x80)" % (["0x%02x" % x for x in acc[:12]],),
+              sample={"accepted": ["0x%02x" % x for x in acc[:16]], "domain": 256})
 
 
 # ------------------------------------------------------------------ C03.6
@@ -456,9 +486,9 @@ def c03_6(ctx):
         ctx.check(s == iv(("s", 1), None), "witness-element-limit-value", ctx.where(f, x), "witness stack elements rejected for lengths %s, consensus: > 520" % s.fmt("MAX_BLOB_LENGTH"))
     v0 = ctx.func(SEG, "SegwitChecker._check_witness_program_v0")
     txt = norm(v0.node)
-    ctx.check("stack = list(witness_solution_stack[:-1])" in txt and "puzzle_script = witness_solution_stack[-1]" in txt and "sha256(puzzle_script).digest() != witness_program" in txt,
+    tcheck(ctx, "stack = list(witness_solution_stack[:-1])" in txt and "puzzle_script = witness_solution_stack[-1]" in txt and "sha256(puzzle_script).digest() != witness_program" in txt,
               "p2wsh-script-split", ctx.where(v0), "_check_witness_program_v0: P2WSH does not split the witness into script (last item, sha256-checked) and input stack (the rest)")
-    ctx.check("len(witness_solution_stack) != 2" in txt and "stack = list(witness_solution_stack)" in txt, "p2wpkh-two-items", ctx.where(v0), "_check_witness_program_v0: P2WPKH does not require exactly two witness items")
+    tcheck(ctx, "len(witness_solution_stack) != 2" in txt and "stack = list(witness_solution_stack)" in txt, "p2wpkh-two-items", ctx.where(v0), "_check_witness_program_v0: P2WPKH does not require exactly two witness items")
 
 
 # ------------------------------------------------------------------ C03.7
@@ -476,10 +506,10 @@ def c03_7(ctx):
         elif ok:
             txt = " ; ".join(norm(s) for s in rest)
             ok = "vm.bool_from_script_bytes(vm.pop())" in txt and "raise ScriptError" in txt and ("if not v:" in txt or "if not vm.bool_from_script_bytes(vm.pop()):" in txt)
-        ctx.check(ok, "verify-sibling:%s" % name, ctx.where(f), "%s is not `%s; pop; fail unless true`" % (name, base), sample={"handler": name, "base": base})
+        tcheck(ctx, ok, "verify-sibling:%s" % name, ctx.where(f), "%s is not `%s; pop; fail unless true`" % (name, base), sample={"handler": name, "base": base})
     f = ctx.func(INTOPS, "do_OP_VERIFY")
     txt = norm(f.node)
-    ctx.check("v = vm.bool_from_script_bytes(vm.pop())" in txt and "if not v:" in txt and "raise ScriptError" in txt, "verify", ctx.where(f), "do_OP_VERIFY is not pop + script truthiness + fail")
+    tcheck(ctx, "v = vm.bool_from_script_bytes(vm.pop())" in txt and "if not v:" in txt and "raise ScriptError" in txt, "verify", ctx.where(f), "do_OP_VERIFY is not pop + script truthiness + fail")
 
 
 # ------------------------------------------------------------------ C03.8
@@ -500,11 +530,11 @@ def c03_8(ctx):
     f1 = gd.get("flags_1")
     ctx.check(f1 is not None and norm(f1) in ("flags & ~(VERIFY_MINIMALIF | VERIFY_WITNESS_PUBKEYTYPE)", "flags & ~(VERIFY_WITNESS_PUBKEYTYPE | VERIFY_MINIMALIF)"), "scriptpubkey-flags", ctx.where(g),
               "the scriptPubKey / P2SH stage flags are `%s`, expected flags without MINIMALIF and WITNESS_PUBKEYTYPE" % (norm(f1) if f1 is not None else None))
-    ctx.check("yield (puzzle_script, solution_stack, flags_1, sighash_f)" in txt, "scriptpubkey-stage", ctx.where(g), "the first stage does not run the scriptPubKey on the scriptSig's stack with the masked flags")
-    ctx.check("self.p2s_program_tuple(tx_context, puzzle_script, solution_stack, flags_1, sighash_f)" in txt, "p2sh-stage-flags", ctx.where(g), "the P2SH stage does not receive the masked flags")
-    ctx.check("self.witness_program_tuple(tx_context, puzzle_script, solution_stack, flags, is_p2sh)" in txt and "is_p2sh = p2sh_tuple is not None" in txt, "witness-stage-flags", ctx.where(g),
+    tcheck(ctx, "yield (puzzle_script, solution_stack, flags_1, sighash_f)" in txt, "scriptpubkey-stage", ctx.where(g), "the first stage does not run the scriptPubKey on the scriptSig's stack with the masked flags")
+    tcheck(ctx, "self.p2s_program_tuple(tx_context, puzzle_script, solution_stack, flags_1, sighash_f)" in txt, "p2sh-stage-flags", ctx.where(g), "the P2SH stage does not receive the masked flags")
+    tcheck(ctx, "self.witness_program_tuple(tx_context, puzzle_script, solution_stack, flags, is_p2sh)" in txt and "is_p2sh = p2sh_tuple is not None" in txt, "witness-stage-flags", ctx.where(g),
               "the witness stage does not receive the unmasked flags and the is_p2sh indicator")
-    ctx.check("puzzle_script, solution_stack = p2sh_tuple[:2]" in txt, "p2sh-to-witness-chaining", ctx.where(g), "the witness stage does not see the redeem script after P2SH")
+    tcheck(ctx, "puzzle_script, solution_stack = p2sh_tuple[:2]" in txt, "p2sh-to-witness-chaining", ctx.where(g), "the witness stage does not see the redeem script after P2SH")
     # P2SH: push-only scriptSig, removes its own bit, redeem script = last stack item
     p = ctx.func(P2S, "P2SChecker.p2s_program_tuple")
     txt = norm(p.node)
@@ -513,8 +543,8 @@ def c03_8(ctx):
     rt = [e for e in ex if e.kind == "return" and not (isinstance(e.value, ast.Constant) and e.value.value is None)]
     ok = len(rt) == 1 and gi.f_equiv(rt[0].cond, gi.f_and(("op", "flags & VERIFY_P2SH"), ("op", "self.is_pay_to_script_hash(puzzle_script)")))
     ctx.check(ok, "p2sh-dispatch", ctx.where(p), "p2s_program_tuple does not fire exactly when the P2SH flag is set and the script matches the P2SH pattern")
-    ctx.check("self._check_script_push_only(tx_context.solution_script)" in txt, "p2sh-push-only", ctx.where(p), "P2SH evaluation does not enforce a push-only scriptSig")
-    ctx.check("puzzle_script, solution_stack = (solution_stack[-1], solution_stack[:-1])" in txt and "flags & ~VERIFY_P2SH" in txt, "p2sh-redeem", ctx.where(p), "P2SH does not take the last stack item as script, the rest as stack, and clear its own flag")
+    tcheck(ctx, "self._check_script_push_only(tx_context.solution_script)" in txt, "p2sh-push-only", ctx.where(p), "P2SH evaluation does not enforce a push-only scriptSig")
+    tcheck(ctx, "puzzle_script, solution_stack = (solution_stack[-1], solution_stack[:-1])" in txt and "flags & ~VERIFY_P2SH" in txt, "p2sh-redeem", ctx.where(p), "P2SH does not take the last stack item as script, the rest as stack, and clear its own flag")
     # witness
     s = ctx.func(SEG, "SegwitChecker.witness_program_tuple")
     w = GuardWalker(ru.opaque)
@@ -533,27 +563,27 @@ def c03_8(ctx):
     # final checks
     c = ctx.func(BSC, "BitcoinSolutionChecker.check_solution")
     txt = norm(c.node)
-    ctx.check("if len(stack) == 0 or not vm.bool_from_script_bytes(stack[-1]):" in txt, "eval-false", ctx.where(c), "check_solution does not fail on an empty or false final stack after every stage")
-    ctx.check("if flags and flags & VERIFY_CLEANSTACK and (len(stack) != 1):" in txt, "cleanstack", ctx.where(c), "CLEANSTACK does not compare the final stack length with 1")
-    ctx.check("initial_stack=solution_stack[:]" in txt, "stage-stack-copy", ctx.where(c), "stages do not run on a copy of the previous stack")
+    tcheck(ctx, "if len(stack) == 0 or not vm.bool_from_script_bytes(stack[-1]):" in txt, "eval-false", ctx.where(c), "check_solution does not fail on an empty or false final stack after every stage")
+    tcheck(ctx, "if flags and flags & VERIFY_CLEANSTACK and (len(stack) != 1):" in txt, "cleanstack", ctx.where(c), "CLEANSTACK does not compare the final stack length with 1")
+    tcheck(ctx, "initial_stack=solution_stack[:]" in txt, "stage-stack-copy", ctx.where(c), "stages do not run on a copy of the previous stack")
     # MINIMALDATA applies to pushes only when executed; minimal push violation raises
     ei = ctx.func(VM, "VM.eval_instruction")
     t = norm(ei.node)
-    ctx.check("verify_minimal_data = self.flags & VERIFY_MINIMALDATA and all_if_true" in t and "if not is_ok:" in t, "minimaldata-executed-only", ctx.where(ei), "eval_instruction does not restrict the minimal-push rule to executed pushes or ignores malformed pushes")
-    ctx.check("if all_if_true or getattr(f, 'outside_conditional', False):" in t and "if data is not None and all_if_true:" in t, "conditional-execution", ctx.where(ei), "eval_instruction does not skip unexecuted opcodes / pushes correctly")
+    tcheck(ctx, "verify_minimal_data = self.flags & VERIFY_MINIMALDATA and all_if_true" in t and "if not is_ok:" in t, "minimaldata-executed-only", ctx.where(ei), "eval_instruction does not restrict the minimal-push rule to executed pushes or ignores malformed pushes")
+    tcheck(ctx, "if all_if_true or getattr(f, 'outside_conditional', False):" in t and "if data is not None and all_if_true:" in t, "conditional-execution", ctx.where(ei), "eval_instruction does not skip unexecuted opcodes / pushes correctly")
     # NULLDUMMY / NULLFAIL / STRICTENC plumbing
     m = ctx.func(CHECKSIG, "do_OP_CHECKMULTISIG")
-    ctx.check("if vm.flags & VERIFY_NULLDUMMY and hack_byte != b'':" in norm(m.node), "nulldummy", ctx.where(m), "NULLDUMMY does not require the dummy element to be empty")
+    tcheck(ctx, "if vm.flags & VERIFY_NULLDUMMY and hack_byte != b'':" in norm(m.node), "nulldummy", ctx.where(m), "NULLDUMMY does not require the dummy element to be empty")
     cs = ctx.func(CHECKSIG, "checksigs")
     t = norm(cs.node)
-    ctx.check("any_nonblank = flags & VERIFY_NULLFAIL and any((len(s) > 0 for s in sig_blobs))" in t and "if any_nonblank:" in t, "nullfail", ctx.where(cs), "NULLFAIL does not fail when a failed check had a non-empty signature")
+    tcheck(ctx, "any_nonblank = flags & VERIFY_NULLFAIL and any((len(s) > 0 for s in sig_blobs))" in t and "if any_nonblank:" in t, "nullfail", ctx.where(cs), "NULLFAIL does not fail when a failed check had a non-empty signature")
     pc = ctx.func(CHECKSIG, "parse_and_check_signature_blob")
     t = norm(pc.node)
-    ctx.check("if flags & (VERIFY_DERSIG | VERIFY_LOW_S | VERIFY_STRICTENC):" in t and "check_valid_signature(sig_blob)" in t and "if flags & VERIFY_STRICTENC:" in t and
+    tcheck(ctx, "if flags & (VERIFY_DERSIG | VERIFY_LOW_S | VERIFY_STRICTENC):" in t and "check_valid_signature(sig_blob)" in t and "if flags & VERIFY_STRICTENC:" in t and
               "check_defined_hashtype_signature(sig_blob)" in t and "if flags & VERIFY_LOW_S:" in t, "signature-encoding-flags", ctx.where(pc), "DERSIG/LOW_S/STRICTENC do not trigger the encoding checks")
     cg = ctx.func(CHECKSIG, "check_public_key_flags")
     t = norm(cg.node)
-    ctx.check("if verify_witness_pubkeytype:" in t and "pair_blob[:1] not in (b'\\x02', b'\\x03') or len(pair_blob) != 33" in t, "witness-pubkeytype", ctx.where(cg), "WITNESS_PUBKEYTYPE does not require compressed keys")
+    tcheck(ctx, "if verify_witness_pubkeytype:" in t and "pair_blob[:1] not in (b'\\x02', b'\\x03') or len(pair_blob) != 33" in t, "witness-pubkeytype", ctx.where(cg), "WITNESS_PUBKEYTYPE does not require compressed keys")
 
 
 # ------------------------------------------------------------------ C03.9
@@ -582,17 +612,17 @@ def c03_10(ctx):
     c = ctx.p.cls(COND, "ConditionalStack")
     f = ctx.func(COND, "ConditionalStack.all_if_true")
     r = df.returns_of(f.node)
-    ctx.check(len(r) == 1 and norm(r[0].value) == "self.false_count == 0", "all-if-true", ctx.where(f), "all_if_true is not `false_count == 0`")
+    tcheck(ctx, len(r) == 1 and norm(r[0].value) == "self.false_count == 0", "all-if-true", ctx.where(f), "all_if_true is not `false_count == 0`")
     f = ctx.func(COND, "ConditionalStack.check_final_state")
     w = GuardWalker(SymbolicAtomizer(ru.subject({"self.false_count"}), df.const_int))
     ex = w.run(f.node.body)
     # error_f is called when either counter is non-zero
     t = norm(f.node)
-    ctx.check("if self.false_count > 0 or self.true_count > 0:" in t and "self.error_f(" in t, "final-state", ctx.where(f), "check_final_state does not fail when a branch is still open")
+    tcheck(ctx, "if self.false_count > 0 or self.true_count > 0:" in t and "self.error_f(" in t, "final-state", ctx.where(f), "check_final_state does not fail when a branch is still open")
     f = ctx.func(COND, "ConditionalStack.OP_IF")
     t = norm(f.node)
     ok = -1 < t.find("if self.false_count > 0:") < t.find("if reverse_bool:") and "self.false_count += 1\n        return" in t and "the_bool = not the_bool" in t and "self.true_count += 1" in t and "self.false_count = 1" in t
-    ctx.check(ok, "op-if", ctx.where(f), "OP_IF does not (a) only deepen false_count inside a false branch, (b) apply NOTIF inversion, (c) open a true or a false branch")
+    tcheck(ctx, ok, "op-if", ctx.where(f), "OP_IF does not (a) only deepen false_count inside a false branch, (b) apply NOTIF inversion, (c) open a true or a false branch")
     for name, msg in (("OP_ELSE", "OP_ELSE without OP_IF"), ("OP_ENDIF", "OP_ENDIF without OP_IF")):
         f = ctx.func(COND, "ConditionalStack." + name)
         w = GuardWalker(ru.opaque)
@@ -619,8 +649,8 @@ def c03_10(ctx):
     ctx.check(ok, "if-pops-when-executing", ctx.where(inner), "IF/NOTIF pop the condition although the branch is not executing (or never pop it)")
     t = norm(inner.node)
     ok = "if vm.flags & VERIFY_MINIMALIF:" in t and "if item not in (vm.VM_FALSE, vm.VM_TRUE):" in t and -1 < t.find("VERIFY_MINIMALIF") < t.find("the_bool = vm.bool_from_script_bytes(item)")
-    ctx.check(ok, "minimalif", ctx.where(inner), "MINIMALIF is not applied (item in {empty, 01}) before the condition is converted")
-    ctx.check("vm.conditional_stack.OP_IF(the_bool, reverse_bool=reverse_bool)" in t, "if-dispatch", ctx.where(inner), "IF/NOTIF do not forward (condition, reverse flag) to the conditional stack")
+    tcheck(ctx, ok, "minimalif", ctx.where(inner), "MINIMALIF is not applied (item in {empty, 01}) before the condition is converted")
+    tcheck(ctx, "vm.conditional_stack.OP_IF(the_bool, reverse_bool=reverse_bool)" in t, "if-dispatch", ctx.where(inner), "IF/NOTIF do not forward (condition, reverse flag) to the conditional stack")
 
 
 # ------------------------------------------------------------------ C03.12  CLTV / CSV comparisons
@@ -651,12 +681,12 @@ def c03_12(ctx):
     g = ctx.func(MISCOPS, "do_OP_CHECKSEQUENCEVERIFY")
     t = norm(g.node)
     ok = "if sequence & SEQUENCE_LOCKTIME_DISABLE_FLAG:" in t and "if vm.tx_context.version < 2:" in t and "if vm.tx_context.sequence & SEQUENCE_LOCKTIME_DISABLE_FLAG:" in t and "_check_sequence_verify(sequence, vm.tx_context.sequence)" in t and "if sequence < 0:" in t
-    ctx.check(ok, "csv-preconditions", ctx.where(g), "CHECKSEQUENCEVERIFY misses one of: negative operand, disable flag in operand (nop), tx version >= 2, disable flag in nSequence, masked comparison")
+    tcheck(ctx, ok, "csv-preconditions", ctx.where(g), "CHECKSEQUENCEVERIFY misses one of: negative operand, disable flag in operand (nop), tx version >= 2, disable flag in nSequence, masked comparison")
     h = ctx.func(MISCOPS, "do_OP_CHECKLOCKTIMEVERIFY")
     t = norm(h.node)
     ok = "if vm.tx_context.sequence == 4294967295:" in t and "if max_lock_time < 0:" in t and "era_max = max_lock_time >= 500000000" in t and "era_lock_time = vm.tx_context.lock_time >= 500000000" in t and \
         "if era_max != era_lock_time:" in t and "if max_lock_time > vm.tx_context.lock_time:" in t
-    ctx.check(ok, "cltv-rules", ctx.where(h), "CHECKLOCKTIMEVERIFY misses one of: final sequence, negative operand, same era (threshold 500000000), operand <= nLockTime")
+    tcheck(ctx, ok, "cltv-rules", ctx.where(h), "CHECKLOCKTIMEVERIFY misses one of: final sequence, negative operand, same era (threshold 500000000), operand <= nLockTime")
     for fn in (g, h):
         w = GuardWalker(ru.opaque)
         ex = w.run(fn.node.body)
@@ -712,7 +742,7 @@ def c03_14(ctx):
     for m in ("pop", "__getitem__"):
         f = vm.methods[m]
         t = norm(f.node)
-        ctx.check("except IndexError:" in t and "raise ScriptError(" in t, "underflow-funnel:%s" % m, ctx.where(f), "VM.%s does not convert IndexError into ScriptError" % m)
+        tcheck(ctx, "except IndexError:" in t and "raise ScriptError(" in t, "underflow-funnel:%s" % m, ctx.where(f), "VM.%s does not convert IndexError into ScriptError" % m)
     # remaining simple handlers
     simple = {"OP_DEPTH": ["vm.push_int(len(vm.stack))"], "OP_SIZE": ["vm.push_int(len(vm[-1]))"], "OP_TOALTSTACK": ["vm.altstack.append(vm.pop())"],
               "OP_CODESEPARATOR": ["vm.begin_code_hash = vm.pc"], "OP_EQUAL": ["v1, v2 = [vm.pop() for i in range(2)]", "vm.append(vm.bool_to_script_bytes(v1 == v2))"],
@@ -729,17 +759,17 @@ def c03_14(ctx):
         v, f = by_name[name]
         fi = _finfo(ctx, f)
         t = norm(fi.node)
-        ctx.check(expr in t and "if v < 0:" in t and "v = pop_check_bounds(vm)" in t, "handler:%s" % name, fi.where, "%s does not copy/move the item n back (n >= 0, bounded)" % name)
+        tcheck(ctx, expr in t and "if v < 0:" in t and "v = pop_check_bounds(vm)" in t, "handler:%s" % name, fi.where, "%s does not copy/move the item n back (n >= 0, bounded)" % name)
     v, f = by_name["OP_FROMALTSTACK"]
     fi = _finfo(ctx, f)
-    ctx.check("if len(vm.altstack) < 1:" in norm(fi.node) and "vm.append(vm.altstack.pop())" in norm(fi.node), "handler:OP_FROMALTSTACK", fi.where, "OP_FROMALTSTACK does not move the top of the alt stack (failing when empty)")
+    tcheck(ctx, "if len(vm.altstack) < 1:" in norm(fi.node) and "vm.append(vm.altstack.pop())" in norm(fi.node), "handler:OP_FROMALTSTACK", fi.where, "OP_FROMALTSTACK does not move the top of the alt stack (failing when empty)")
     v, f = by_name["OP_IFDUP"]
     fi = _finfo(ctx, f)
     t = norm(fi.node)
-    ctx.check("if _cast_to_bool(stack[-1]):" in t and "stack.append(stack[-1])" in t, "handler:OP_IFDUP", fi.where, "OP_IFDUP does not duplicate the top item exactly when it is true")
+    tcheck(ctx, "if _cast_to_bool(stack[-1]):" in t and "stack.append(stack[-1])" in t, "handler:OP_IFDUP", fi.where, "OP_IFDUP does not duplicate the top item exactly when it is true")
     cb = ctx.func(STACKOPS, "_cast_to_bool")
     t = norm(cb.node)
-    ctx.check("for i, b in enumerate(v):" in t and "if b != 0:" in t and "return not (i == len(v) - 1 and b == 128)" in t and t.rstrip().endswith("return False"), "cast-to-bool", ctx.where(cb), "_cast_to_bool is not CastToBool (any non-zero byte, except a sole trailing 0x80)")
+    tcheck(ctx, "for i, b in enumerate(v):" in t and "if b != 0:" in t and "return not (i == len(v) - 1 and b == 128)" in t and t.rstrip().endswith("return False"), "cast-to-bool", ctx.where(cb), "_cast_to_bool is not CastToBool (any non-zero byte, except a sole trailing 0x80)")
 
 
 def c03_13(ctx):
@@ -834,6 +864,11 @@ def _c03_resolver(ctx, fi):
     if fi.qualname in refs:
         return _ref(), refs[fi.qualname][1], INTS
     return None
+
+
+def tcheck(ctx, cond, key, where, msg, **kw):
+    """a check that reads the spelling of the code (see sa/refguard.py)"""
+    return ctx.check(cond, key, where, msg, text=True, **kw)
 
 
 def guarded(fn, near_stands=True):
